@@ -26,17 +26,26 @@ func isExecuteCall(call *ssa.Call) bool {
 	if sig.Results().Len() != 2 {
 		return false
 	}
-	name := ""
-	if call.Call.IsInvoke() {
-		name = call.Call.Method.Name()
-	} else if c := call.Call.StaticCallee(); c != nil {
-		name = c.Name()
-	}
-	if name != "execute" {
+	// recognised by its signature, not its name: (frame, context) -> (frame, column name)
+	return isExecuteSig(sig)
+}
+
+// isExecuteSig: the signature of Expression.execute - two results, a frame and a types.ColumnName, and a frame among
+// the parameters (the receiver, when there is one, does not count).
+func isExecuteSig(sig *types.Signature) bool {
+	if sig.Results().Len() != 2 || !isFrameType(sig.Results().At(0).Type()) {
 		return false
 	}
 	n, ok := sig.Results().At(1).Type().(*types.Named)
-	return ok && n.Obj().Name() == "ColumnName"
+	if !ok || n.Obj().Name() != "ColumnName" {
+		return false
+	}
+	for i := 0; i < sig.Params().Len(); i++ {
+		if isFrameType(sig.Params().At(i).Type()) {
+			return true
+		}
+	}
+	return false
 }
 
 // forwardReach: values that carry (a conversion of) v, through converts, phis, array/slice stores and loads.
@@ -563,7 +572,7 @@ func decodeConstructor(p *Prog, fn *ssa.Function) ([]decodePath, string) {
 func runR15(c *Ctx) {
 	p := c.P
 	// (1) colConstExpr: constructor paths x execute
-	if ctor, exe := p.anchorByResult("colConstExpr", "newColConstExpr"), p.Func("", "colConstExpr.execute"); ctor != nil && exe != nil {
+	if ctor, exe := p.anchorByResult("colConstExpr", "newColConstExpr"), p.executeOf("colConstExpr"); ctor != nil && exe != nil {
 		paths, why := decodeConstructor(p, ctor)
 		if len(paths) == 0 {
 			c.undecided("qframe.newColConstExpr|decoding paths", p.pos(ctor.Pos()), "cannot enumerate: "+why)
@@ -641,7 +650,7 @@ func runR15(c *Ctx) {
 		c.undecided("qframe.colConstExpr", "-", "constructor or execute not found")
 	}
 	// (2) colColExpr: fields from positions 1, 2; Instruction SrcCol1/SrcCol2 from srcCol1/srcCol2
-	if ctor, exe := p.anchorByResult("colColExpr", "newColColExpr"), p.Func("", "colColExpr.execute"); ctor != nil && exe != nil {
+	if ctor, exe := p.anchorByResult("colColExpr", "newColColExpr"), p.executeOf("colColExpr"); ctor != nil && exe != nil {
 		paths, _ := decodeConstructor(p, ctor)
 		for _, dp := range paths {
 			key := "qframe.colColExpr|decoding " + dp.descr
@@ -679,7 +688,7 @@ func runR15(c *Ctx) {
 		})
 	}
 	// (3) exprExpr2: lhs <- 1, rhs <- 2 ; list {op, name(lhs), name(rhs)}
-	if ctor, exe := p.Func("", "newExprExpr"), p.Func("", "exprExpr2.execute"); ctor != nil && exe != nil {
+	if ctor, exe := p.Func("", "newExprExpr"), p.executeOf("exprExpr2"); ctor != nil && exe != nil {
 		// constructor: returns exprExpr2{lhs: newExpr(l[1]), rhs: newExpr(l[2])}
 		okCtor, seen := true, false
 		eachInstr(ctor, func(in ssa.Instruction) {
@@ -979,7 +988,7 @@ func colColOperands(p *Prog, fn *ssa.Function, pe *pathExec) (ssa.Value, ssa.Val
 	// (b) struct literal on which execute is called
 	for _, call := range calls {
 		callee := call.Call.StaticCallee()
-		if callee == nil || callee.Name() != "execute" || callee.Signature.Recv() == nil {
+		if callee == nil || !isExecuteSig(callee.Signature) || callee.Signature.Recv() == nil {
 			continue
 		}
 		n, ok := deref(callee.Signature.Recv().Type()).(*types.Named)
